@@ -2,6 +2,7 @@ package rules
 
 import (
 	"fmt"
+	"go/token"
 	"go/types"
 	"sort"
 	"strings"
@@ -20,6 +21,7 @@ func init() {
 	engine.Register("V-BOOL", ruleVBool)
 	engine.Register("V-TWO-CURRENT", ruleVTwoCurrent)
 	engine.Register("N-PRESENCE", ruleNPresence)
+	engine.Register("L-CLASS", ruleLClass)
 }
 
 // queryFamily: functions whose receiver type is a query, comparator or validator type
@@ -1245,4 +1247,263 @@ func nilComparisonOf(v ssa.Value, seen map[ssa.Value]bool) ssa.Instruction {
 		}
 	}
 	return nil
+}
+
+// ---------------------------------------------------------------------------------------------
+// L-CLASS: every verdict list a filter query returns has length 1 or the length of the member
+// list it was given. Inductive over the query family: each implementation returns one of the two
+// one-element package lists, a one-element literal, a list made with the member list's length, the
+// member list itself, a copy of a stored one-element list, or what a sub-query returned for the
+// same member list (or for a one-element list). The filter qualifier's `result[0]` read is then
+// safe where it is guarded by "length differs from the member count".
+
+type listClass int
+
+const (
+	lcOne listClass = 1 << iota
+	lcN
+	lcSub
+	lcOther
+)
+
+func (c listClass) String() string {
+	var s []string
+	if c&lcOne != 0 {
+		s = append(s, "one-element")
+	}
+	if c&lcN != 0 {
+		s = append(s, "member-count")
+	}
+	if c&lcSub != 0 {
+		s = append(s, "sub-query result")
+	}
+	if c&lcOther != 0 {
+		s = append(s, "unknown length")
+	}
+	return strings.Join(s, "|")
+}
+
+type lclassCtx struct {
+	p     *load.Program
+	comp  map[*ssa.Function]*ssa.Parameter
+	why   string
+	depth int
+}
+
+func (lc *lclassCtx) classify(fn *ssa.Function, list *ssa.Parameter, v ssa.Value, seen map[ssa.Value]bool) listClass {
+	if seen[v] {
+		return 0
+	}
+	seen[v] = true
+	p := lc.p
+	switch x := v.(type) {
+	case *ssa.Parameter:
+		if x == list {
+			return lcN
+		}
+	case *ssa.Phi:
+		var c listClass
+		for _, e := range x.Edges {
+			c |= lc.classify(fn, list, e, seen)
+		}
+		return c
+	case *ssa.Slice:
+		if al, ok := x.X.(*ssa.Alloc); ok && x.Low == nil && x.High == nil {
+			if at, ok := al.Type().(*types.Pointer).Elem().(*types.Array); ok {
+				if at.Len() == 1 {
+					return lcOne
+				}
+			}
+		}
+	case *ssa.MakeSlice:
+		if a, ok := lenArg(x.Len); ok && list != nil && a == ssa.Value(list) {
+			return lcN
+		}
+	case *ssa.UnOp:
+		if x.Op != token.MUL {
+			break
+		}
+		switch a := x.X.(type) {
+		case *ssa.Global:
+			if a == p.Roles.MarkerList || a == p.Roles.FullList {
+				return lcOne
+			}
+		case *ssa.Alloc:
+			// a local (e.g. the spilled result of a function with defers): union over its stores
+			var c listClass
+			n := 0
+			for _, ref := range *a.Referrers() {
+				if st, ok := ref.(*ssa.Store); ok && st.Addr == ssa.Value(a) {
+					c |= lc.classify(fn, list, st.Val, seen)
+					n++
+				}
+			}
+			if n > 0 {
+				return c
+			}
+		case *ssa.FieldAddr:
+			// a list stored in a node of the parsed tree: every store into that field, anywhere
+			pt, ok := a.X.Type().(*types.Pointer)
+			if !ok {
+				break
+			}
+			var c listClass
+			n := 0
+			for _, f2 := range p.Funcs {
+				for _, b := range f2.Blocks {
+					for _, ins := range b.Instrs {
+						st, ok := ins.(*ssa.Store)
+						if !ok {
+							continue
+						}
+						fa, ok := st.Addr.(*ssa.FieldAddr)
+						if !ok || fa.Field != a.Field || !types.Identical(fa.X.Type(), pt) {
+							continue
+						}
+						n++
+						c |= lc.classify(f2, nil, st.Val, map[ssa.Value]bool{})
+					}
+				}
+			}
+			if n > 0 {
+				return c
+			}
+		}
+	case *ssa.Call:
+		if bi, ok := x.Call.Value.(*ssa.Builtin); ok {
+			if bi.Name() == "append" && len(x.Call.Args) == 2 {
+				if cst, isC := x.Call.Args[0].(*ssa.Const); isC && cst.IsNil() {
+					if _, isSl := x.Call.Args[1].Type().Underlying().(*types.Slice); isSl {
+						return lc.classify(fn, list, x.Call.Args[1], seen) // a copy has the length of its source
+					}
+				}
+			}
+			break
+		}
+		// evaluation of a sub-query
+		var args []ssa.Value
+		isCompute := false
+		if x.Call.IsInvoke() && types.Identical(x.Call.Value.Type(), p.Roles.QueryIface) {
+			isCompute, args = true, x.Call.Args
+		} else if sc := x.Call.StaticCallee(); sc != nil {
+			if _, ok := lc.comp[sc]; ok {
+				isCompute, args = true, x.Call.Args[1:]
+			}
+		}
+		if isCompute && len(args) == 2 {
+			ac := lc.classify(fn, list, args[1], map[ssa.Value]bool{})
+			switch {
+			case ac == lcN:
+				return lcSub
+			case ac == lcOne:
+				return lcOne
+			case ac&lcOther == 0 && ac != 0:
+				return lcSub // one-element or the member list: the result is one-element or member-count
+			}
+		}
+	}
+	if lc.why == "" {
+		lc.why = fmt.Sprintf("%s in %s", v.String(), load.FuncName(fn))
+	}
+	return lcOther
+}
+
+func ruleLClass(c *engine.Context) *report.Rule {
+	r := report.NewRule("L-CLASS", "every verdict list of a filter query has length 1 or the member count; the filter reads result[0] only where the length differs from the member count", 6)
+	p := c.P
+	comp := queryComputeFuncs(p)
+	var fns []*ssa.Function
+	for fn := range comp {
+		fns = append(fns, fn)
+	}
+	sort.Slice(fns, func(i, j int) bool { return load.FuncName(fns[i]) < load.FuncName(fns[j]) })
+	for _, fn := range fns {
+		list := comp[fn]
+		r.Instances++
+		var all listClass
+		lc := &lclassCtx{p: p, comp: comp}
+		for _, b := range fn.Blocks {
+			if b.Comment == "recover" {
+				continue
+			}
+			ret, ok := b.Instrs[len(b.Instrs)-1].(*ssa.Return)
+			if !ok || len(ret.Results) != 1 {
+				continue
+			}
+			all |= lc.classify(fn, list, ret.Results[0], map[ssa.Value]bool{})
+		}
+		ok := all != 0 && all&lcOther == 0
+		r.Oblige(ok)
+		r.Nontrivial++
+		r.Sample("%s returns: %s", load.FuncName(fn), all)
+		if !ok {
+			r.Violation(load.FuncName(fn)+" may return a list of another length", p.RelPos(fn.Pos()),
+				"%s can return a list that is not shown to have one element or as many elements as the member list it was given (%s): the logical operators merge verdict lists index by index and the filter reads result[0] / result[i] by that convention — an index out of range panic, or members matched against the wrong verdicts", load.FuncName(fn), lc.why)
+		}
+	}
+	// the consumers outside the query family: reads of element 0 of a compute result
+	for _, fn := range evalFuncs(c) {
+		if _, isQ := comp[fn]; isQ {
+			continue
+		}
+		for _, b := range fn.Blocks {
+			for _, ins := range b.Instrs {
+				ia, ok := ins.(*ssa.IndexAddr)
+				if !ok {
+					continue
+				}
+				call, ok := ia.X.(*ssa.Call)
+				if !ok || !call.Call.IsInvoke() || !types.Identical(call.Call.Value.Type(), p.Roles.QueryIface) {
+					continue
+				}
+				cv, isC := cfgutilConst(ia.Index)
+				if !isC || cv != 0 {
+					continue
+				}
+				r.Instances++
+				guarded := false
+				for _, dc := range dominatingConds(b) {
+					cond, neg := unwrapNot(dc.cond)
+					bo, ok := cond.(*ssa.BinOp)
+					if !ok || (bo.Op != token.EQL && bo.Op != token.NEQ) {
+						continue
+					}
+					lx, okx := lenArg(bo.X)
+					_, oky := lenArg(bo.Y)
+					if !okx || !oky || lx != ssa.Value(call) {
+						if ly, ok2 := lenArg(bo.Y); !(ok2 && ly == ssa.Value(call) && okx) {
+							continue
+						}
+					}
+					equal := (bo.Op == token.EQL) == (dc.taken != neg)
+					if !equal {
+						guarded = true
+					}
+				}
+				// the flag form: isEach := len(v) == len(m); if !isEach { v[0] }
+				if !guarded {
+					for _, dc := range dominatingConds(b) {
+						cond, neg := unwrapNot(dc.cond)
+						if bo, ok := cond.(*ssa.BinOp); ok && (bo.Op == token.EQL || bo.Op == token.NEQ) {
+							lx, okx := lenArg(bo.X)
+							ly, oky := lenArg(bo.Y)
+							if okx && oky && (lx == ssa.Value(call) || ly == ssa.Value(call)) {
+								equal := (bo.Op == token.EQL) == (dc.taken != neg)
+								if !equal {
+									guarded = true
+								}
+							}
+						}
+					}
+				}
+				r.Oblige(guarded)
+				r.Sample("%s reads element 0 of a verdict list under `length differs from the member count`: %v", load.FuncName(fn), guarded)
+				if !guarded {
+					r.Violation(load.FuncName(fn)+" reads element 0 of a verdict list unguarded", p.RelPos(ia.Pos()),
+						"%s reads element 0 of the list a filter query returned without having established that its length differs from the member count (a per-member list can be empty when the container is empty)", load.FuncName(fn))
+				}
+			}
+		}
+	}
+	return r
 }
